@@ -13,6 +13,9 @@ import (
 	"os"
 	"path"
 	"path/filepath"
+	"crypto/sha256"
+	"net/http"
+	"net/http/httptest"
 	"sort"
 	"strings"
 
@@ -81,6 +84,16 @@ type Case struct {
 	PkgOutside bool `json:"pkgoutside,omitempty"`
 	Loaded     bool `json:"loaded,omitempty"`
 	Crash string   `json:"crash,omitempty"`
+	// download: a download rule built by the real Builder against a local
+	// HTTP server.  Kind: "match" | "mismatch" (the checksum is of other bytes) |
+	// "truncated" (the server announces more bytes than it sends and closes) |
+	// "notfound" | "empty".  TMPDIR points at <base>/tmp, the working directory
+	// is <base>/cwd, the workspace is <base>/ws.  Stray: every path under
+	// <base> outside ws/out that exists after the build and did not before (with
+	// its size); During: the same, seen from the HTTP handler while the body was
+	// being sent.
+	Stray  []string `json:"stray,omitempty"`
+	During []string `json:"during,omitempty"`
 	// ArgMod: an argument passed by reference (the rule struct with its
 	// Files / Select / Ignore slices, the elements of a variadic call) that the
 	// call changed: "<what>: <before> -> <after>".
@@ -705,6 +718,16 @@ func genCases(seed uint64, n int, thorough bool) []Case {
 		add(Case{Stream: "build-links", Op: "build", P: "pkg", Tree: t, TreeID: btid,
 			Rule: &Rule{Name: "fs", Files: []string{}, Select: []string{sel}, Ignore: []string{}}})
 	}
+	// download rules built for real against a local HTTP server: a build writes under
+	// <root>/out only - not into $TMPDIR, not into the working directory - whether the
+	// checksum matches, does not match, the transfer breaks, or there is nothing to get.
+	for _, kind := range []string{"match", "mismatch", "truncated", "notfound", "empty"} {
+		for _, out := range []string{"file.bin", "sub/deep/file.bin", "../esc.bin", "/abs.bin"} {
+			btid++
+			add(Case{Stream: "download", Op: "download", Kind: kind, P: "pkg", F: out, TreeID: btid,
+				Rule: &Rule{Name: "dl", Files: []string{}, Select: []string{}, Ignore: []string{}}})
+		}
+	}
 	// several file sets in ONE build file, built by one Builder in one call: what one
 	// rule lists must not depend on what another rule listed before it (a listing
 	// kept on the Builder's env and shared between rules).  all = "**", docs =
@@ -876,6 +899,8 @@ func runCase(c *Case, scratch string, built map[int]string) {
 		runBuildKey(c, scratch)
 	case "buildmany":
 		runBuildMany(c, scratch)
+	case "download":
+		runDownload(c, scratch)
 	case "rule":
 		var rule interface{}
 		a, b := c.Fields[0], c.Fields[1]
@@ -1022,6 +1047,117 @@ func runBuild(c *Case, scratch string) {
 		}
 		c.Outside = physicallyOutside(filepath.Join(ws, "src"), c.Outs)
 	}
+}
+
+// strays lists "<path> (<size> bytes)" for everything under base, outside
+// ws/out, that is not in before.
+func strays(base string, before map[string]snapEnt) []string {
+	var out []string
+	for p, e := range snapDir(base) {
+		if p == "ws/out" || strings.HasPrefix(p, "ws/out/") {
+			continue
+		}
+		if _, ok := before[p]; ok {
+			continue
+		}
+		out = append(out, fmt.Sprintf("%s (%d bytes)", p, len(e.Data)))
+	}
+	sort.Strings(out)
+	return out
+}
+
+// runDownload builds one download rule with the real Builder.
+func runDownload(c *Case, scratch string) {
+	base := filepath.Join(scratch, fmt.Sprintf("dl%d", c.TreeID))
+	os.RemoveAll(base)
+	defer os.RemoveAll(base)
+	ws := filepath.Join(base, "ws")
+	for _, d := range []string{filepath.Join(ws, "src", "pkg"), filepath.Join(base, "tmp"), filepath.Join(base, "cwd")} {
+		if err := os.MkdirAll(d, 0o755); err != nil {
+			c.Err = "other:setup: " + err.Error()
+			return
+		}
+	}
+	content := []byte(strings.Repeat("downloaded bytes\n", 4096)) // 68 KiB: more than one write
+	sum := sha256.Sum256(content)
+	if c.Kind == "mismatch" {
+		sum = sha256.Sum256([]byte("other bytes"))
+	}
+	if c.Kind == "empty" {
+		content = nil
+		sum = sha256.Sum256(nil)
+	}
+	var before map[string]snapEnt
+	var during []string
+	srv := httptest.NewServer(http.HandlerFunc(func(w http.ResponseWriter, r *http.Request) {
+		if c.Kind == "notfound" {
+			http.NotFound(w, r)
+			return
+		}
+		half := len(content) / 2
+		if c.Kind == "truncated" {
+			w.Header().Set("Content-Length", fmt.Sprint(len(content)))
+		}
+		w.Write(content[:half])
+		if f, ok := w.(http.Flusher); ok {
+			f.Flush()
+		}
+		during = strays(base, before) // what the build has created so far
+		if c.Kind == "truncated" {
+			if hj, ok := w.(http.Hijacker); ok {
+				if conn, _, err := hj.Hijack(); err == nil {
+					conn.Close()
+				}
+			}
+			return
+		}
+		w.Write(content[half:])
+	}))
+	defer srv.Close()
+	os.WriteFile(filepath.Join(ws, "WORKSPACE.caco3"), []byte("repo_map {\n  Src: {\"pkg\": \"\"},\n}\n"), 0o644)
+	nm, _ := json.Marshal(c.Rule.Name)
+	outName, _ := json.Marshal(c.F)
+	bf := fmt.Sprintf("download {\n  Name: %s,\n  URL: %q,\n  Checksum: \"sha256:%s\",\n  Output: %s,\n}\n",
+		nm, srv.URL+"/file.bin", hex.EncodeToString(sum[:]), outName)
+	os.WriteFile(filepath.Join(ws, "src", "pkg", "BUILD.caco3"), []byte(bf), 0o644)
+
+	oldTmp, hadTmp := os.LookupEnv("TMPDIR")
+	os.Setenv("TMPDIR", filepath.Join(base, "tmp"))
+	oldWd, _ := os.Getwd()
+	os.Chdir(filepath.Join(base, "cwd"))
+	defer func() {
+		if hadTmp {
+			os.Setenv("TMPDIR", oldTmp)
+		} else {
+			os.Unsetenv("TMPDIR")
+		}
+		os.Chdir(oldWd)
+	}()
+	before = snapDir(base)
+	log.SetOutput(io.Discard)
+	b, err := caco3.NewBuilder(ws, &caco3.Config{Root: ws})
+	if err != nil {
+		c.Err = "other:builder: " + err.Error()
+		return
+	}
+	if _, errs := b.ReadWorkspace(); errs != nil {
+		c.Err = "other:workspace: " + errs[0].Err.Error()
+		return
+	}
+	name := caco3.VerifMakeRelPath("pkg", c.Rule.Name)
+	c.Out = name
+	if errs := b.Build([]string{name}); errs != nil {
+		c.Err = "builderr"
+	}
+	c.Stray = strays(base, before)
+	c.During = during
+	c.Outs = []string{}
+	for p := range snapDir(filepath.Join(ws, "out")) {
+		if p != "." && !strings.HasPrefix(p, "CACHE") {
+			c.Outs = append(c.Outs, p)
+		}
+	}
+	sort.Strings(c.Outs)
 }
 
 // runBuildMany declares all of c.Rules in pkg/BUILD.caco3 (in the given
